@@ -160,8 +160,8 @@ def lean(e, p=0):
         return "(F.ofReal %s)" % lean(e.a[0], 100)
     if k == "call":
         return "(F.%s %s)" % (e.name, " ".join(lean(x, 100) for x in e.a))
-    if k == "app":  # profile array applied to a natural-number index
-        return "(%s %s)" % (e.name, lean(e.a[0], 100))
+    if k == "app":  # profile array applied to an index, or a symbolic function applied to its arguments
+        return "(%s %s)" % (e.name, " ".join(lean(x, 100) for x in e.a))
     if k == "ite":
         return "(if %s then %s else %s)" % (lean(e.a[0]), lean(e.a[1]), lean(e.a[2]))
     if k == "cmp":
@@ -176,7 +176,7 @@ def free_vars(e, acc=None):
     if e.k == "var":
         acc[e.name] = e.ty
     if e.k == "app":
-        acc[e.name] = "A"
+        acc[e.name] = "A" if (len(e.a) == 1 and e.a[0].ty == "N") else "G%d" % len(e.a)
     for x in e.a:
         if isinstance(x, E):
             free_vars(x, acc)
@@ -262,6 +262,8 @@ class Exec:
             return E("tuple", "T", [self.ev(x) for x in n.elts])
         if isinstance(n, ast.Name) and False:
             pass
+        if isinstance(n, ast.List) and len(n.elts) == 1:
+            return self.ev(n.elts[0])
         if isinstance(n, ast.Subscript):
             return self.subscript(n)
         if isinstance(n, ast.Attribute):
@@ -319,7 +321,9 @@ class Exec:
             return self.env[base.id].fn(idx)
         # X[msk], X[:, msk], X[0, msk] on element-wise arrays: the element itself
         sl = ast.unparse(n.slice)
-        if sl in ("msk", ":, msk", "...", "(..., np.newaxis)", "..., np.newaxis"):
+        if sl in ("msk", ":, msk", "...", "(..., np.newaxis)", "..., np.newaxis", "sflag"):
+            return self.ev(base)
+        if sl == "0" and isinstance(base, ast.Call) and ast.unparse(base.func) in getattr(self, "user_fns", {}):
             return self.ev(base)
         if isinstance(base, ast.Name) and base.id == "mxy":
             if sl in ("0", "1"):
@@ -381,13 +385,15 @@ class Exec:
             if short == "ones":
                 cplx = any(kw.arg == "dtype" and "complex" in ast.unparse(kw.value) for kw in n.keywords)
                 return cast(num(1.0), "C") if cplx else num(1.0)
+            if short == "zeros_like":
+                return num(0.0)
             if short == "zeros":
                 cplx = any(kw.arg == "dtype" and "complex" in ast.unparse(kw.value) for kw in n.keywords)
                 return cast(num(0.0), "C") if cplx else num(0.0)
             if short in ("asarray", "array", "squeeze") and len(args) == 1:
                 return self.ev(args[0])
-        if f in getattr(self, "user_fns", {}) and len(args) == 1:
-            return E("app", "R", (cast(self.ev(args[0]), "R"),), name=self.user_fns[f])
+        if f in getattr(self, "user_fns", {}):
+            return E("app", "R", tuple(cast(self.ev(a), "R") for a in args), name=self.user_fns[f])
         if f in ("spsp.gamma", "special.gamma", "scipy.special.gamma") and len(args) == 1:
             return E("app", "R", (cast(self.ev(args[0]), "R"),), name="Γ")
         raise TranslateError("call %s" % ast.unparse(n))
@@ -545,7 +551,8 @@ end
 end BLDFM.Generated
 """
 
-TY = {"N": "Nat", "R": "R", "C": "C", "A": "Nat → R", "G": "R → R"}
+TY = {"N": "Nat", "R": "R", "C": "C", "A": "Nat → R", "G": "R → R", "G1": "R → R", "G2": "R → R → R",
+      "G4": "R → R → R → R → R"}
 
 
 class Group:
@@ -1038,6 +1045,131 @@ def tables_group():
     return g
 
 
+def km_group():
+    src = os.path.join(REPO_SRC, "ffm_kormann_meixner.py")
+    g = Group("KMK", "src/bldfm/ffm_kormann_meixner.py")
+    vk = None
+    tree = ast.parse(open(src).read())
+    for n in tree.body:
+        if isinstance(n, ast.Assign) and ast.unparse(n.targets[0]) == "von_karman":
+            vk = num(float(ast.literal_eval(n.value)))
+
+    def helper(name, target, params):
+        """masked two-branch helper: target[sflag] = a  (sflag = cond0);  target[sflag] = b  (sflag = cond1)"""
+        def f():
+            env = dict(params)
+            env["von_karman"] = vk
+            ex = Exec(load_fn(src, name), env)
+            ex.user_fns = {"_phiM": "phiMG"}
+            ex.run()
+            conds = [v for (t, p, v) in ex.probes if t == "sflag"]
+            vals = [v for (t, p, v) in ex.probes if t == target + "[sflag]"]
+            if len(conds) != 2 or len(vals) != 2:
+                raise TranslateError("%s: expected two masked assignments, found %d/%d" % (name, len(conds), len(vals)))
+            for v in conds + vals:
+                if not isinstance(v, E):
+                    raise TranslateError("%s: %s" % (name, getattr(v, "why", v)))
+            init = ex.probe(target, which=0)
+            return E("ite", "R", (conds[0], cast(vals[0], "R"), E("ite", "R", (conds[1], cast(vals[1], "R"), cast(init, "R")))))
+        return f
+    ZL = dict(zm=var("zm", "R"), mo_len=var("L", "R"))
+    g.kernel("phiM", [("zm", "R"), ("L", "R")], helper("_phiM", "phi_m", ZL))
+    g.kernel("phiC", [("zm", "R"), ("L", "R")], helper("_phiC", "phi_c", ZL))
+    g.kernel("psiM", [("zm", "R"), ("L", "R")], helper("_psiM", "psi_m", ZL))
+    g.kernel("nParam", [("zm", "R"), ("L", "R")], helper("_nParam", "n", ZL))
+
+    def m_param():
+        env = dict(zm=var("zm", "R"), ws=var("ws", "R"), ustar=var("ustar", "R"), mo_len=var("L", "R"), von_karman=vk)
+        ex = Exec(load_fn(src, "_mParam"), env)
+        ex.user_fns = {"_phiM": "phiMG"}
+        ex.run()
+        return ret_component(ex)
+    g.kernel("mParam", [("zm", "R"), ("ws", "R"), ("ustar", "R"), ("L", "R"), ("phiMG", "G2")], m_param)
+
+    # estimateFootprint
+    try:
+        env = dict(zm=var("zm", "R"), z0=var("z0", "R"), ws=var("ws", "R"), ustar=var("ustar", "R"), mo_len=var("L", "R"),
+                   sigma_v=var("sigmaV", "R"), grid_res=var("res", "R"), von_karman=vk, wd=var("wd", "R"),
+                   grid_x=var("gx", "R"), grid_y=var("gy", "R"))
+        ex = Exec(load_fn(src, "estimateFootprint"), env, {"tuple(grid_domain)": E("tuple", "T", [var("xmin", "R"), var("xmax", "R"), var("ymin", "R"), var("ymax", "R")])})
+        ex.user_fns = {"_phiM": "phiMG", "_phiC": "phiCG", "_psiM": "psiMG", "_mParam": "mG", "_nParam": "nG"}
+        ex.run()
+        ef, ef_err = ex, None
+    except TranslateError as e:
+        ef, ef_err = None, str(e)
+
+    def eq(target, frozen=None, **kw):
+        def f():
+            if ef is None:
+                raise TranslateError(ef_err)
+            if not frozen:
+                return ef.probe(target, **kw)
+            env = dict(ef.env0)
+            env.update(frozen)
+            e2 = Exec(ef.fn, env, ef.aliases, frozen=set(frozen))
+            e2.user_fns = ef.user_fns
+            e2.run()
+            return e2.probe(target, **kw)
+        return f
+    FN = [("phiMG", "G2"), ("phiCG", "G2"), ("psiMG", "G2"), ("mG", "G4"), ("nG", "G2"), ("Γ", "G1")]
+    IN = [("zm", "R"), ("z0", "R"), ("ws", "R"), ("ustar", "R"), ("L", "R"), ("sigmaV", "R"), ("res", "R")]
+    PAR = {k: var(k, "R") for k in ("m", "n", "kappa", "U", "r", "mu", "Xi", "gmm", "mr", "A", "num")}
+    PP = [(k, "R") for k in PAR]
+    g.kernel("efM", IN + FN, eq("m"))
+    g.kernel("efN", IN + FN, eq("n"))
+    g.kernel("efKappa", IN + FN + PP, eq("kappa", frozen={k: PAR[k] for k in ("m", "n")}))
+    g.kernel("efU", IN + FN + PP, eq("U", frozen={k: PAR[k] for k in ("m", "n")}))
+    g.kernel("efR", IN + FN + PP, eq("r", frozen={k: PAR[k] for k in ("m", "n")}))
+    g.kernel("efMu", IN + FN + PP, eq("mu", frozen={k: PAR[k] for k in ("m", "n", "r")}))
+    g.kernel("efXi", IN + FN + PP, eq("Xi", frozen={k: PAR[k] for k in ("m", "n", "r", "U", "kappa")}))
+    g.kernel("efGmm", IN + FN + PP, eq("gmm", frozen={k: PAR[k] for k in ("mu",)}))
+    g.kernel("efMr", IN + FN + PP, eq("mr", frozen={k: PAR[k] for k in ("m", "r")}))
+    g.kernel("efA", IN + FN + PP, eq("A", frozen={k: PAR[k] for k in ("m", "n", "r", "U", "kappa", "mr")}))
+    g.kernel("efNum", IN + FN + PP, eq("num", frozen={k: PAR[k] for k in ("Xi", "mu")}))
+    XY = [("gx", "R"), ("gy", "R"), ("mx", "R"), ("my", "R"), ("wd", "R")]
+    g.kernel("efXplain", XY, eq("x", path_has=("if:wd is None$",)))
+    g.kernel("efYplain", XY, eq("y", path_has=("if:wd is None$",)))
+    g.kernel("efXrot", XY, eq("x", path_has=("else:wd is None$",)))
+    g.kernel("efYrot", XY, eq("y", path_has=("else:wd is None$",)))
+    g.kernel("efUpwind", [("x", "R")], eq("sflag", frozen=dict(x=var("x", "R"), y=var("y", "R"))))
+    g.kernel("efCell", [("res", "R"), ("x", "R"), ("y", "R")] + PP,
+             eq("grid_ffm[sflag]", frozen=dict(PAR, x=var("x", "R"), y=var("y", "R"))))
+
+    def u_guard():
+        if ef is None:
+            raise TranslateError(ef_err)
+        for (p, t, v) in ef.tests:
+            if t.replace(" ", "") == "U<0":
+                return "U < 0"
+        raise TranslateError("U < 0 guard not found")
+    try:
+        g.report["_static"] = {"uGuard": u_guard()}
+    except TranslateError as e:
+        g.report["_static"] = "FAILED: %s" % e
+
+    # estimateZ0: raw z0
+    def z0raw():
+        env = dict(zm=var("zm", "R"), ws=var("ws", "R"), ustar=var("ustar", "R"), mo_len=var("L", "R"), von_karman=vk)
+        ex = Exec(load_fn(src, "estimateZ0"), env)
+        ex.user_fns = {"_psiM": "psiMG"}
+        ex.run()
+        return ex.probe("z0", which=0)
+    g.kernel("z0raw", [("zm", "R"), ("ws", "R"), ("ustar", "R"), ("L", "R"), ("psiMG", "G2")], z0raw)
+    # dtype of the helper allocations (C19 'integers or floats alike')
+    try:
+        allocs = {}
+        for fn in ast.walk(tree):
+            if isinstance(fn, ast.FunctionDef) and fn.name in ("_phiM", "_phiC", "_psiM", "_nParam"):
+                for n in ast.walk(fn):
+                    if isinstance(n, ast.Call) and ast.unparse(n.func) in ("np.zeros_like", "np.empty_like", "np.zeros"):
+                        allocs[fn.name] = "float" if any(kw.arg == "dtype" and "float" in ast.unparse(kw.value) for kw in n.keywords) else "inherit"
+        g.report["_alloc"] = allocs
+    except Exception as e:  # noqa: BLE001
+        g.report["_alloc"] = "FAILED: %r" % (e,)
+    g.write()
+    return g
+
+
 def rename(e, m):
     if not isinstance(e, E):
         raise TranslateError(getattr(e, "why", "not an expression"))
@@ -1063,7 +1195,7 @@ def refreeze(sol, sol_err, target, frozen, path_has=(), extra_aliases=None):
 def main():
     os.makedirs(OUT, exist_ok=True)
     report = {}
-    groups = [solver_group, misc_group, pbl_group, tables_group]
+    groups = [solver_group, misc_group, pbl_group, km_group, tables_group]
     for mk in groups:
         try:
             g = mk()
